@@ -142,6 +142,28 @@ func checkGroupAssignment(s *Sim, cl *Cluster, g *Group, gr *GenRecord, metas ma
 	}
 }
 
+// installAssignmentMonitor checks every assignment a group leader distributes
+// through SyncGroup (monitor M-C14).
+func installAssignmentMonitor(s *Sim, cl *Cluster) {
+	cl.OnStable = func(g *Group, gr *GenRecord) {
+		metas := map[string]memberMeta{}
+		for _, mid := range gr.Members {
+			if m := g.Members[mid]; m != nil {
+				for _, p := range m.Protocols {
+					if p.Name == gr.Protocol {
+						mm, err := decodeMemberMeta(p.Meta)
+						if err != nil {
+							s.Fail("C04", "R3-member-metadata", "member %s metadata undecodable: %v", mid, err)
+						}
+						metas[mid] = mm
+					}
+				}
+			}
+		}
+		checkGroupAssignment(s, cl, g, gr, metas)
+	}
+}
+
 // ---- scenario ----
 
 type tp struct {
@@ -504,23 +526,7 @@ func groupScenario(s *Sim, params map[string]string) {
 			}
 		}
 	}
-	cl.OnStable = func(g *Group, gr *GenRecord) {
-		metas := map[string]memberMeta{}
-		for _, mid := range gr.Members {
-			if m := g.Members[mid]; m != nil {
-				for _, p := range m.Protocols {
-					if p.Name == gr.Protocol {
-						mm, err := decodeMemberMeta(p.Meta)
-						if err != nil {
-							s.Fail("C04", "R3-member-metadata", "member %s metadata undecodable: %v", mid, err)
-						}
-						metas[mid] = mm
-					}
-				}
-			}
-		}
-		checkGroupAssignment(s, cl, g, gr, metas)
-	}
+	installAssignmentMonitor(s, cl)
 	s.OnStep(st.checkCommits)
 
 	app := func(gr *gReader) {
